@@ -95,8 +95,12 @@ def get_path(tree, path):
     return cur
 
 
-def sub_roundtrip(sh, site, s):
-    doc = site_doc(site, s)
+INPLACE = {'tnote': lambda d: d.tables[0].note, 'cnote': lambda d: d.tables[0].columns[0].note, 'inote': lambda d: d.tables[0].indexes[0].note,
+           'einote': lambda d: d.enums[0].items[0].note, 'gnote': lambda d: d.table_groups[0].note, 'pnote': lambda d: d.project.note}
+
+
+def sub_roundtrip(sh, site, s, inplace=False):
+    doc = site_doc(site, 'placeholder' if inplace else s)
     tc = norm.text_class(s)
     sh.case([site, s, 'rt'], nontrivial=bool(s), sample={'site': site, 'text': s, 'check': 'roundtrip'})
     sh.count(f'obs.rt.{site}')
@@ -104,6 +108,11 @@ def sub_roundtrip(sh, site, s):
     case = {'kind': 'c13rt', 'site': site, 'text': s}
     try:
         db = apibuild.build(doc)
+        if inplace:
+            # the element exists with a one-line text, is rendered once, and the text is then replaced in place
+            db.dbml
+            INPLACE[site](db).text = s
+            sh.count('obs.rt_inplace')
         c0 = am.strip_comments(walk.content(db))
         d1 = db.dbml
     except Exception as e:  # noqa
@@ -155,6 +164,21 @@ def sub_sql(sh, site, s):
             sh.violation('sql', f'sql:comment-on-text@{site}:{tc}', f'{s!r}: body {hits[0]["text"]!r} != {want!r}', dict(case, sql=sql))
         else:
             sh.count('obs.sql_ok')
+        # the same statement asked from the element itself (note.sql, table.sql): same protection of the text
+        try:
+            dbe = apibuild.build(doc)
+            el = dbe.tables[0] if site == 'tnote' else dbe.tables[0].columns[0]
+            for label, text_ in (('note.sql', el.note.sql), ('table.sql', dbe.tables[0].sql)):
+                rd2 = sqlread.read(text_)
+                hits2 = [st for st in rd2['statements'] if st['kind'] == 'comment_on' and st['what'] == what
+                         and st['target'][-1:] == (['tbl'] if site == 'tnote' else ['col'])]     # (column note.sql names the bare column)
+                bad2 = [st for st in rd2['statements'] if st['kind'] in ('unknown', 'bad')]
+                sh.count('obs.sql.element_level')
+                if len(hits2) != 1 or bad2 or hits2[0]['text'] != want:
+                    sh.violation('sql', f'sql:comment-on-broken@{site}.{label}:{tc}', f'{s!r}: {label} gives {text_[:120]!r}', dict(case, sql=text_))
+        except Exception as e:  # noqa
+            cls, where = monitors.classify_exc(e)
+            sh.violation('sql', f'sql:raises@{site}.element:{cls}', f'{s!r}: {cls}: {e}', case)
     else:
         want = f'DEFAULT ({s})' if site == 'expr' else f', ({s}))'
         if want not in sql:
@@ -276,6 +300,9 @@ def run_shard(spec, tier, seed, budget_s):
     for s in stored_notes:
         for site in NOTE_SITES:
             work.append(('rt', site, s))
+        if '\n' in s or len(s) > 60:
+            for site in ('tnote', 'gnote', 'pnote', 'cnote'):
+                work.append(('rt-inplace', site, s))
         for site in ('tnote', 'cnote'):
             work.append(('sql', site, s))
     for x in raw:
@@ -296,6 +323,8 @@ def run_shard(spec, tier, seed, budget_s):
             sub_normalise(sh, s, site)
         elif what == 'rt':
             sub_roundtrip(sh, site, s)
+        elif what == 'rt-inplace':
+            sub_roundtrip(sh, site, s, inplace=True)
         else:
             sub_sql(sh, site, s)
     return sh
